@@ -183,11 +183,57 @@ def _enum_start(call):
     return None
 
 
+def _nonneg_param(mod, name, fn, _seen=None):
+    """`name` is a parameter of fn with a non-negative int default, never re-assigned in fn except by `+=` of a
+    non-negative amount, and every call of fn in the module passes a non-negative expression for it"""
+    _seen = _seen or set()
+    if (fn.name, name) in _seen:
+        return True
+    _seen = _seen | {(fn.name, name)}
+    args = fn.args
+    params = [a.arg for a in args.posonlyargs + args.args]
+    if name not in params:
+        return False
+    idx = params.index(name)
+    defaults = [None] * (len(params) - len(args.defaults)) + list(args.defaults)
+    d = defaults[idx]
+    if not (isinstance(d, ast.Constant) and isinstance(d.value, int) and not isinstance(d.value, bool) and d.value >= 0):
+        return False
+    for n in ast.walk(fn):
+        if isinstance(n, ast.Assign) and any(isinstance(t, ast.Name) and t.id == name for t in n.targets):
+            return False
+        if isinstance(n, ast.AugAssign) and isinstance(n.target, ast.Name) and n.target.id == name:
+            if not (isinstance(n.op, ast.Add) and _nonneg(mod, n.value, fn)):
+                return False
+    tree = getattr(mod, "tree", None)
+    if tree is None:
+        return False
+    for caller in ast.walk(tree):
+        if not isinstance(caller, (ast.FunctionDef, ast.AsyncFunctionDef)):
+            continue
+        for c in ast.walk(caller):
+            if isinstance(c, ast.Call) and isinstance(c.func, ast.Name) and c.func.id == fn.name:
+                passed = None
+                off = idx - (1 if params and params[0] in ("self", "cls") else 0)
+                if len(c.args) > idx:
+                    passed = c.args[idx]
+                for k in c.keywords:
+                    if k.arg == name:
+                        passed = k.value
+                if passed is not None and not _nonneg(mod, passed, caller):
+                    return False
+    return True
+
+
 def _nonneg(mod, e, fn):
     """expression known to be >= 0: len(..), 0-based enumerate/range index, non-negative constant"""
     if isinstance(e, ast.Constant) and isinstance(e.value, int) and e.value >= 0:
         return True
     if isinstance(e, ast.Call) and isinstance(e.func, ast.Name) and e.func.id == "len":
+        return True
+    if isinstance(e, ast.BinOp) and isinstance(e.op, ast.Add):
+        return _nonneg(mod, e.left, fn) and _nonneg(mod, e.right, fn)
+    if isinstance(e, ast.Name) and fn is not None and _nonneg_param(mod, e.id, fn):
         return True
     if isinstance(e, ast.Name) and fn is not None:
         binds = []
@@ -195,7 +241,7 @@ def _nonneg(mod, e, fn):
             if isinstance(n, ast.Assign) and any(isinstance(t, ast.Name) and t.id == e.id for t in n.targets):
                 binds.append(isinstance(n.value, ast.Constant) and isinstance(n.value.value, int) and n.value.value >= 0)
             elif isinstance(n, ast.AugAssign) and isinstance(n.target, ast.Name) and n.target.id == e.id:
-                binds.append(_is_inc(n, e.id))
+                binds.append(_is_inc(n, e.id) or (isinstance(n.op, ast.Add) and _nonneg(mod, n.value, fn)))
             elif isinstance(n, (ast.For, ast.comprehension)) and any(isinstance(x, ast.Name) and x.id == e.id for x in ast.walk(n.target)):
                 binds.append(None)
         if binds and all(b is True for b in binds):
